@@ -77,3 +77,112 @@ def check(ctx, anchor, a_starts, b_starts, cut_sponge=True, equality_only=False)
     if best:
         return False, "compared at %s but the result of that comparison cannot reach the outcome" % best, best
     return False, "no comparison has one operand derived from each of them (%d comparison sites examined)" % len(sites), anchor.body.span
+
+
+# ---------------------------------------------------------------------------------------------------------
+# R1mp: the two components meet on EVERY non-refusing path, not only on some
+def _refusing_blocks(b):
+    out = set(b.diverging())
+    for i, blk in enumerate(b.blocks):
+        t = blk["term"]
+        if t["k"] == "call" and (t.get("callee") or "").endswith("from_residual"):
+            out.add(i)
+        for st in blk["stmts"]:
+            rv = st["rv"]
+            if rv.get("k") == "agg" and rv.get("adt") == "std::result::Result" and rv.get("variant") == "Err":
+                out.add(i)
+    return out
+
+
+def _natural_loops(b):
+    """[(header, body set)] for every back edge x -> h with h dominating x."""
+    succ, pred = b.succ(), b.pred()
+    out = []
+    for x in range(len(b.blocks)):
+        for h in succ[x]:
+            if not b.dominates(h, x):
+                continue
+            body = {h, x}
+            st = [x]
+            while st:
+                y = st.pop()
+                if y == h:
+                    continue
+                for z in pred[y]:
+                    if z not in body:
+                        body.add(z)
+                        st.append(z)
+            out.append((h, body))
+    return out
+
+
+def check_every_path(ctx, anchor, a_starts, b_starts, cut_sponge=True):
+    """(ok, detail, where): in the body that holds the comparison (or the calls of the helper / closure holding it),
+    every non-refusing way through one iteration of the outermost loop around those sites (or through the body)
+    passes one of them. Inner loops containing a site count as passing it."""
+    from ..flow import DATA, ALIAS
+    g = ctx.graph(anchor)
+    f = ctx.facts
+    cut = ctx.sponge_cut(g) if cut_sponge else None
+    pa = g.reach(a_starts, cut=cut, kinds=(DATA, ALIAS))
+    pb = g.reach(b_starts, cut=cut, kinds=(DATA, ALIAS))
+
+    def frames(par):
+        m = {}
+        for (n, ty, stack) in par:
+            m.setdefault(n, set()).add(stack[-1][0] if stack else None)
+        return m
+    fa, fb = frames(pa), frames(pb)
+    meet_blocks = {}      # body -> blocks that perform (or call something that performs) the comparison
+    for (bid, blk, l, r, res, span) in comparison_sites(g):
+        for (x, y) in ((l, r), (r, l)):
+            sa = set().union(*[fa.get(n, set()) for n in x]) if x else set()
+            sb = set().union(*[fb.get(n, set()) for n in y]) if y else set()
+            for site in sa & sb:
+                if site is None or not (isinstance(site, tuple) and site[0] in f.bodies):
+                    meet_blocks.setdefault(bid, set()).add(blk)
+                else:
+                    meet_blocks.setdefault(site[0], set()).add(site[1])
+    if not meet_blocks:
+        return False, "no comparison has one operand derived from each of them", anchor.body.span
+    for bid, sites in sorted(meet_blocks.items()):
+        b = f.bodies[bid]
+        succ = b.succ()
+        refusing = _refusing_blocks(b)
+        loops = _natural_loops(b)
+        outer = [(h, body) for (h, body) in loops if sites & body]
+        passing = set(sites)
+        if outer:
+            h, region = max(outer, key=lambda x: len(x[1]))
+            for (h2, body2) in loops:
+                if h2 != h and body2 < region and body2 & sites:
+                    passing.add(h2)
+            seen = set()
+            st = [y for y in succ[h] if y in region]
+            while st:
+                x = st.pop()
+                if x in seen or x in passing or x in refusing or b.blocks[x]["cleanup"]:
+                    continue
+                seen.add(x)
+                for y in succ[x]:
+                    if y == h:
+                        sp = b.blocks[x]["term"].get("span") or b.span
+                        return False, ("one iteration of the loop at %s can complete without comparing them (back edge from %s)"
+                                       % (b.blocks[h]["term"].get("span") or b.span, sp)), sp
+                    if y in region:
+                        st.append(y)
+        else:
+            for (h2, body2) in loops:
+                if body2 & sites:
+                    passing.add(h2)
+            seen = set()
+            st = [0]
+            while st:
+                x = st.pop()
+                if x in seen or x in passing or x in refusing or b.blocks[x]["cleanup"]:
+                    continue
+                seen.add(x)
+                if b.blocks[x]["term"]["k"] == "return":
+                    return False, "%s can return normally without comparing them" % bid, b.span
+                st.extend(succ[x])
+    return True, "compared on every non-refusing path (%d site(s))" % sum(len(v) for v in meet_blocks.values()), None
